@@ -7,7 +7,7 @@ HERE = os.path.dirname(os.path.dirname(os.path.abspath(__file__)))
 # id -> (category, technique, level text, level note, design ref)
 CLAIMED = {
  "C05": ("exploration", "deterministic simulation with fault injection: seeded search over schedules, read/write segmentations and connection faults; per-connection exactly-once/in-order oracle over wire taps vs recv history",
-         "Whole library on a simulated runtime: a receiving socket of each fair-queue type with 1..4 scripted senders; every run draws its own scheduler policy, pipe capacities, chunking, yields, delivery delays, late joins, closes, mid-message cuts and resets. Oracle at quiescence: recv results attributed by tag equal, in order and frame by frame, the complete messages an independent RFC-23 decoder finds on each connection's tap. Sampling, not proof.",
+         "Whole library on a simulated runtime: a receiving socket of each fair-queue type with 1..4 scripted senders; every run draws its own scheduler policy, pipe capacities, chunking, yields, delivery delays, late joins, closes, mid-message cuts and resets. Also real sockets as senders, the fair-queue component simulation, and peers that rejoin under their identity. Oracle at quiescence: recv results attributed by tag equal, in order and frame by frame, the complete messages an independent RFC-23 decoder finds on each connection's tap. One open known finding (identity collision on overlapping rejoin) is listed in known_findings.json with its replay. Sampling, not proof.",
          "Trusts the simulated transport to behave like an ordered reliable byte stream, the independent reference codec, and that task interleavings at await points plus reactor events at mutex boundaries cover the relevant schedules.", "5/C05, B1"),
  "C06": ("exploration", "deterministic simulation of the real fair queue with scripted streams: seeded search over interleavings of arrivals, wakes, inserts, closes and receiver polls, including events inside the window where poll_next holds no lock; lost-wake-up and bounded-overtaking oracles at quiescence",
          "L1: the private fair queue driven through the FairQueueProbe hook; foreign events land between polls, inside stream polls and at every lock/unlock of the queue's mutex. Oracles: at quiescence the receiver may not be parked un-woken while an inserted stream holds an item; with deep queues no ready peer waits for more than 2n+2 (+1 per injected spurious wake) foreign deliveries. L2: whole library, nobody parked in recv while a complete message is undelivered. Sampling, not proof.",
@@ -52,7 +52,7 @@ CLAIMED = {
          "Every request reaches a worker exactly once as identity + delimiter + payload verbatim, every reply reaches exactly its client, the capture sink gets one copy of every forwarded message in per-client order, proxy() keeps running.",
          "Clients/workers do not depart; pipe capacities stay above the largest message (mutual back-pressure deadlock of proxy() is flow control, outside the statement).", "5/C15"),
  "C16": ("fault_enumeration", "deterministic simulation with connection faults enumerated over every byte offset of the victim's stream x {orderly close, reset, read error, write error} x 9 socket types with live bystanders, plus connect/disconnect churn; clause-keyed oracles on recv history, taps and connection release",
-         "Clauses: others_affected, more_than_one_error, routed_to_failed_peer, sends_keep_failing, not_released, dead_connections_accumulate, hang, no_quiescence. Ten open known findings (orderly end-of-stream never releases the peer for PULL/REP/ROUTER/SUB/XPUB) are listed in known_findings.json with stored replays.",
+         "Clauses: others_affected, more_than_one_error, routed_to_failed_peer, sends_keep_failing, not_released, dead_connections_accumulate, hang, no_quiescence. Strata cut_world, cut_world_connect, rejoin_same_identity (departure and rejoin under the same identity at four timings), churn.",
          "'Released' is asserted only after the socket has been polled to quiescence after the fault; TCP half-close is not injected.", "5/C16, B7"),
  "C17": ("fault_enumeration", "deterministic simulation: the 432-cell grid socket type x transport x history prefix x {close, drop} executed in the simulated network and file namespaces through the real bind/accept/close code, repeated under seeded schedules and an injected unlink failure",
          "At close() return (resp. at quiescence after drop): no listener left and fresh connects refused, IPC socket file removed, every peer connection closed by the socket, no library-spawned task alive, close() reports an injected unlink failure.",
